@@ -183,4 +183,92 @@ theorem checkU2_generated (N m c : ℕ) (rows : List (List CtrlVerif.Q)) (hne : 
   simp only [Bool.false_eq_true, if_false, if_neg hs, bind, Except.bind, e1, e2]
   by_cases h : rows.length = m ∧ c = N <;> simp [h, dataOf, okOf]
 
+/-- the elements of an `m × k` array stored column by column, in NumPy's row-major order. -/
+def rowMajor {m : ℕ} (cols : List (Vector ℚ m)) : List ℚ :=
+  (List.finRange m).flatMap fun i => cols.map (·.get i)
+
+theorem rowMajor_replicate (m k : ℕ) (c : ℚ) :
+    rowMajor (List.replicate k (Vector.replicate m c)) = List.replicate (m * k) c := by
+  unfold rowMajor
+  have hg : ∀ i : Fin m, (List.replicate k (Vector.replicate m c)).map (·.get i) = List.replicate k c := by
+    intro i; simp [Vector.get]
+  have h : ∀ l : List (Fin m), l.flatMap (fun i => (List.replicate k (Vector.replicate m c)).map (·.get i))
+      = List.replicate (l.length * k) c := by
+    intro l
+    induction l with
+    | nil => simp
+    | cons a t ih =>
+      rw [List.flatMap_cons, ih, hg, ← List.replicate_add, List.length_cons]; congr 1; ring
+  simpa using h (List.finRange m)
+
+theorem rowMajor_single (v : List ℚ) :
+    rowMajor (v.map fun a => Vector.replicate 1 a) = v := by
+  unfold rowMajor
+  simp [List.finRange_succ, Vector.get, Function.comp_def]
+
+theorem rowMajor_single' (v : List ℚ) : rowMajor (v.map fun a => (#v[a] : Vector ℚ 1)) = v := by
+  simpa using rowMajor_single v
+
+theorem rowMajor_replicate_one (k : ℕ) (c : ℚ) :
+    rowMajor (List.replicate k (#v[c] : Vector ℚ 1)) = List.replicate k c := by
+  simpa using rowMajor_replicate 1 k c
+
+/-- the legal shapes `forced_response` passes for the input array `U` (`m` inputs, `k` time points). -/
+def legalUF (m k : ℕ) : List (List ℕ) := if m = 1 then [[k], [1, k]] else [[m, k]]
+
+/-- **C06's primitive `convertU` is the generated function** called as `forced_response` calls it
+(`squeeze=False`), observed at the returned elements in row-major order; both raise together. -/
+theorem convertU_generated (m k : ℕ) (x : TimeResp.Arr) :
+    dataOf (checkConvertArray (ofTR x) ((legalUF m k).map (·.map Dim.n)) false false)
+      = (okOf (TimeResp.convertU m k x)).map rowMajor := by
+  rw [generated_cca_eq]
+  cases x with
+  | scalar c =>
+    by_cases h1 : m = 1
+    · subst h1
+      have hf : firstConcrete ((legalUF 1 k).map (·.map Dim.n)) = some ([k].map Dim.n) := by
+        simp [legalUF, firstConcrete]
+      have hm : ∃ t ∈ (legalUF 1 k).map (·.map Dim.n), Matches t [k] :=
+        (exists_matches_map _ _).mpr (by simp [legalUF])
+      have hm2 : ∃ a ∈ legalUF 1 k, Matches (List.map Dim.n a) [k] :=
+        ⟨[k], by simp [legalUF], (matches_concrete _ _).mpr rfl⟩
+      simp only [checkConvert, ofTR, fillScalar, hf, item, full, concrete_map, TimeResp.convertU, okOf,
+        bind, Except.bind, pure, Except.pure]
+      simp [hm2, dataOf, rowMajor_replicate_one]
+    · have hf : firstConcrete ((legalUF m k).map (·.map Dim.n)) = some ([m, k].map Dim.n) := by
+        simp [legalUF, h1, firstConcrete]
+      have hm : ∃ t ∈ (legalUF m k).map (·.map Dim.n), Matches t [m, k] :=
+        (exists_matches_map _ _).mpr (by simp [legalUF, h1])
+      have hm2 : ∃ a ∈ legalUF m k, Matches (List.map Dim.n a) [m, k] :=
+        ⟨[m, k], by simp [legalUF, h1], (matches_concrete _ _).mpr rfl⟩
+      simp only [checkConvert, ofTR, fillScalar, hf, item, full, concrete_map, TimeResp.convertU, okOf,
+        bind, Except.bind, pure, Except.pure]
+      simp [hm2, dataOf, rowMajor_replicate]
+  | d1 v =>
+    have hiff := exists_matches_map (legalUF m k) [v.length]
+    have hmem : [v.length] ∈ legalUF m k ↔ (m = 1 ∧ v.length = k) := by
+      unfold legalUF; by_cases h1 : m = 1 <;> simp [h1]
+    have e1 := hiff.trans hmem
+    have hs : ([v.length] : List ℕ) ≠ [] := by simp
+    unfold checkConvert fillScalar TimeResp.convertU ofTR
+    simp only [Bool.false_eq_true, if_false, if_neg hs, bind, Except.bind, e1]
+    by_cases h : m = 1 ∧ v.length = k
+    · obtain ⟨rfl, rfl⟩ := h
+      simp [dataOf, okOf, rowMajor_single']
+    · simp [h, dataOf, okOf]
+  | d2 r cols =>
+    have hiff := exists_matches_map (legalUF m k) [r, cols.length]
+    have hmem : [r, cols.length] ∈ legalUF m k ↔ (r = m ∧ cols.length = k) := by
+      unfold legalUF; by_cases h1 : m = 1 <;> simp [h1]
+    have e1 := hiff.trans hmem
+    have hs : ([r, cols.length] : List ℕ) ≠ [] := by simp
+    unfold checkConvert fillScalar TimeResp.convertU ofTR
+    simp only [Bool.false_eq_true, if_false, if_neg hs, bind, Except.bind, e1]
+    by_cases hr : r = m
+    · subst hr
+      by_cases hk : cols.length = k
+      · simp [hk, dataOf, okOf, rowMajor]
+      · simp [hk, dataOf, okOf]
+    · simp [hr, dataOf, okOf]
+
 end CtrlVerif.C06GenCCA
